@@ -14,7 +14,7 @@ from pyvc.engine import BUILTINS, Path
 COMPILE_OUTCOMES = ["clean", "warnings-only", "error-then-return", "error-then-warning", "error-then-recoverable", "critical", "internal-crash"]
 
 
-def install_cli_world(eng, outfile_kind, lst, implicit_bin, emitted, report_format="bare"):
+def install_cli_world(eng, outfile_kind, lst, implicit_bin, emitted, report_format="bare", warnings=None):
     """returns the args object; installs the external contracts"""
     I = eng.I
     I.update(writes=[], opened=[], msgs=[])
@@ -26,7 +26,10 @@ def install_cli_world(eng, outfile_kind, lst, implicit_bin, emitted, report_form
         eng.inputs["outfile"] = outfile
     elif outfile_kind is not None:
         outfile = outfile_kind
-    args = Obj("Args", dict(infiles=["prog.mac"], outfile=outfile, implicit_bin=implicit_bin, lst=lst, charset="bk", report_format=report_format, warnings=None), name="args")
+    args = Obj("Args", dict(infiles=["prog.mac"], outfile=outfile, implicit_bin=implicit_bin, lst=lst, charset="bk", report_format=report_format, warnings=(list(warnings) if warnings is not None else None)), name="args")
+    # the renderers write text to the terminal and nothing else (frame obligation handler-frame; they never raise: bounded-handlers)
+    eng.contracts["GraphicalHandler.__call__"] = lambda e, self, *a: None
+    eng.contracts["BareHandler.__call__"] = lambda e, self, *a: None
     cli["env"].vars["argparser"] = Obj("ArgParser", {"parse_args": Builtin("parse_args", lambda e: args)}, name="argparser")
     BUILTINS["codecs.lookup"] = Builtin("codecs.lookup", lambda e, name: None)
     BUILTINS["os.path.abspath"] = Builtin("abspath", lambda e, p: "/abs/" + p if isinstance(p, str) else p)
@@ -124,13 +127,15 @@ def exit_status(outcome):
     return "exception:" + val.cls
 
 
-def unit_main_cli(eng, outfile_kind, lst, implicit_bin, n_emitted):
+def unit_main_cli(eng, outfile_kind, lst, implicit_bin, n_emitted, report_format="bare", warnings=None):
     name = "main_cli[-o=%s,lst=%s,implicit-bin=%s,make_*=%d]" % (outfile_kind, lst, implicit_bin, n_emitted)
+    if report_format != "bare" or warnings is not None:
+        name = name[:-1] + ",%s,-W%s]" % (report_format, "+".join(warnings or []))
     emitted = [(None, None, "bin", "/out/a.bin"), (None, None, "raw", "/out/b.raw")][:n_emitted]
 
     def run(eng):
         eng.I = {}
-        install_cli_world(eng, outfile_kind, lst, implicit_bin, emitted)
+        install_cli_world(eng, outfile_kind, lst, implicit_bin, emitted, report_format, warnings)
         return run_main_cli(eng)
 
     def post(eng, o):
